@@ -4,7 +4,7 @@ From Verif Require Import Base.CaseCheck Stop.Events Stop.Check.
 
 Lemma bad_sticky nd t e : bad t = true -> bad (tstep nd t e) = true.
 Proof.
-  intros H. destruct e; try destruct k; cbn [tstep set_bad bad]; rewrite ?H; try reflexivity; exact H.
+  intros H. destruct e; try destruct k; try destruct c; cbn [tstep set_bad bad]; rewrite ?H; try reflexivity; exact H.
 Qed.
 
 Lemma bad_sticky_fold nd l : forall t, bad t = true -> bad (fold_left (tstep nd) l t) = true.
@@ -25,19 +25,31 @@ Proof.
   unfold track in *. rewrite fold_left_app in H. simpl in H. apply negb_true_iff in H. exact H.
 Qed.
 
-(* C02 in the logs: the plugin hears of a position only after a commit that covers it *)
+(* the plugin hears of a position only after a commit that covers it (C02), only for a handled record
+   (every destination confirmed it, or its dead letter was confirmed), in order, before its Teardown *)
 Theorem accepted_ack_is_durable : forall nd l s k, accept nd (l ++ [EPack s k]) = true ->
   k <= lookup s (stored (track nd l)).
 Proof.
   intros nd l s k H. destruct (accept_last nd l _ H) as [H1 H2].
   cbn [tstep set_bad bad] in H2. rewrite H1 in H2. cbn [orb] in H2.
-  apply negb_false_iff in H2. apply Nat.leb_le in H2. exact H2.
+  apply negb_false_iff in H2. repeat (apply andb_true_iff in H2; destruct H2 as [H2 ?]).
+  apply Nat.leb_le in H2. exact H2.
+Qed.
+
+Theorem accepted_ack_is_handled : forall nd l s k, accept nd (l ++ [EPack s k]) = true ->
+  handled (c_ndst nd) (track nd l) s k = true /\
+  k = S (lookup s (lastpack (track nd l))) /\ is_open (CSrc s) (track nd l) = true.
+Proof.
+  intros nd l s k H. destruct (accept_last nd l _ H) as [H1 H2].
+  cbn [tstep set_bad bad] in H2. rewrite H1 in H2. cbn [orb] in H2.
+  apply negb_false_iff in H2. repeat (apply andb_true_iff in H2; destruct H2 as [H2 ?]).
+  repeat split; try assumption. apply Nat.eqb_eq. assumption.
 Qed.
 
 (* durable positions only move forward, and only onto handled records *)
 Theorem accepted_commit_is_safe : forall nd l snap, accept nd (l ++ [ECommit snap]) = true ->
   snap_ge snap (stored (track nd l)) = true /\
-  forall p, In p snap -> snd p = 0 \/ handled nd (track nd l) (fst p) (snd p) = true.
+  forall p, In p snap -> snd p = 0 \/ handled (c_ndst nd) (track nd l) (fst p) (snd p) = true.
 Proof.
   intros nd l snap H. destruct (accept_last nd l _ H) as [H1 H2].
   cbn [tstep set_bad bad] in H2. rewrite H1 in H2. cbn [orb] in H2.
@@ -53,4 +65,94 @@ Proof.
   intros nd l s pos H. destruct (accept_last nd l _ H) as [H1 H2].
   cbn [tstep set_bad bad] in H2. rewrite H1 in H2. cbn [orb] in H2.
   apply negb_false_iff in H2. apply Nat.eqb_eq in H2. exact H2.
+Qed.
+
+(* ---------- lifted to whole logs: every accepted log satisfies the log part of the monitors ---------- *)
+Lemma track_app c l1 l2 : track c (l1 ++ l2) = fold_left (tstep c) l2 (track c l1).
+Proof. unfold track. apply fold_left_app. Qed.
+
+Lemma split_at_ret_spec : forall l pre0 pre cl snap rest,
+  split_at_ret l pre0 = Some (pre, cl, snap, rest) ->
+  exists mid id, pre = rev pre0 ++ mid /\ l = mid ++ ERet KStopWait cl id snap :: rest.
+Proof.
+  induction l as [|e l IH]; intros pre0 pre cl snap rest H; simpl in H; [discriminate|].
+  assert (Hrec : split_at_ret l (e :: pre0) = Some (pre, cl, snap, rest) ->
+                 exists mid id, pre = rev pre0 ++ mid /\ e :: l = mid ++ ERet KStopWait cl id snap :: rest).
+  { intros H'. destruct (IH _ _ _ _ _ H') as (mid & id & E1 & E2). exists (e :: mid), id.
+    simpl in E1. rewrite <- app_assoc in E1. simpl in E1. split; [exact E1|]. simpl. rewrite E2. reflexivity. }
+  destruct e; try (apply Hrec; exact H).
+  destruct k; try (apply Hrec; exact H).
+  inversion H; subst. exists [], id. split; [rewrite app_nil_r; reflexivity|reflexivity].
+Qed.
+
+(* Mon_C06 on an accepted log: whenever StopAndWait returned nil, the pipeline was drained at that
+   moment (nothing half-handled, every written record acked before the teardown of its source, acks a
+   prefix, stored position = last acked, every plugin torn down once) *)
+Theorem accepted_log_satisfies_mon_c06 : forall c l pre snap rest,
+  accept c l = true -> split_at_ret l [] = Some (pre, RNil, snap, rest) ->
+  drained (c_v1 c) (c_slow c) (c_nsrc c) snap (track c pre) = true.
+Proof.
+  intros c l pre snap rest Ha Hs.
+  destruct (split_at_ret_spec _ _ _ _ _ _ Hs) as (mid & id & E1 & E2). simpl in E1. subst pre l.
+  assert (Ha' : accept c (mid ++ [ERet KStopWait RNil id snap]) = true).
+  { apply (accept_prefix_closed c _ rest). rewrite <- app_assoc. exact Ha. }
+  destruct (accept_last c mid _ Ha') as [H1 H2].
+  cbn [tstep set_bad bad] in H2. rewrite H1 in H2. cbn [orb] in H2.
+  apply negb_false_iff in H2. exact H2.
+Qed.
+
+Corollary accepted_healthy_log_passes_mon_c06 : forall c l pre snap rest,
+  accept c l = true -> split_at_ret l [] = Some (pre, RNil, snap, rest) ->
+  mon_c06 c true false l = true.
+Proof.
+  intros c l pre snap rest Ha Hs. unfold mon_c06. rewrite Hs. cbn [negb andb].
+  eapply accepted_log_satisfies_mon_c06; eauto.
+Qed.
+
+(* Mon_C12, acks: in an accepted log no ack was ever delivered for an unhandled record, out of order,
+   or to a torn-down plugin *)
+Lemma flags_imply_bad c t e :
+  (pack_unhandled t = true \/ pack_disorder t = true \/ pack_closed t = true -> bad t = true) ->
+  (pack_unhandled (tstep c t e) = true \/ pack_disorder (tstep c t e) = true \/ pack_closed (tstep c t e) = true ->
+   bad (tstep c t e) = true).
+Proof.
+  intros IH. destruct e;
+    try (match goal with k : callk |- _ => destruct k end);
+    try (match goal with c0 : rcls |- _ => destruct c0 end);
+    cbn [tstep set_bad bad pack_unhandled pack_disorder pack_closed];
+    try (intros H; rewrite (IH H); reflexivity); try exact IH.
+  (* EPack *)
+  intros H.
+  destruct (pack_unhandled t) eqn:E1; [rewrite IH by auto; reflexivity|].
+  destruct (pack_disorder t) eqn:E2; [rewrite IH by auto; reflexivity|].
+  destruct (pack_closed t) eqn:E3; [rewrite IH by auto; reflexivity|].
+  cbn [orb] in H. apply orb_true_iff. right. apply negb_true_iff.
+  destruct (handled (c_ndst c) t s k); destruct (Nat.eqb k (S (lookup s (lastpack t)))); destruct (is_open (CSrc s) t);
+    cbn [negb andb] in *; rewrite ?andb_false_r; try reflexivity; destruct H as [H|[H|H]]; discriminate.
+Qed.
+
+Theorem accepted_log_acks_only_handled : forall c l, accept c l = true ->
+  pack_unhandled (track c l) = false /\ pack_disorder (track c l) = false /\ pack_closed (track c l) = false.
+Proof.
+  intros c l Ha.
+  assert (H : forall l t, (pack_unhandled t = true \/ pack_disorder t = true \/ pack_closed t = true -> bad t = true) ->
+            let t' := fold_left (tstep c) l t in
+            (pack_unhandled t' = true \/ pack_disorder t' = true \/ pack_closed t' = true -> bad t' = true)).
+  { clear. induction l as [|e l IH]; intros t Ht; simpl; [exact Ht|]. apply IH. apply flags_imply_bad. exact Ht. }
+  specialize (H l t0 ltac:(simpl; intros [?|[?|?]]; discriminate)). cbn zeta in H. fold (track c l) in H.
+  unfold accept in Ha. apply negb_true_iff in Ha.
+  destruct (pack_unhandled (track c l)) eqn:E1; [rewrite H in Ha; [discriminate|auto]|].
+  destruct (pack_disorder (track c l)) eqn:E2; [rewrite H in Ha; [discriminate|auto]|].
+  destruct (pack_closed (track c l)) eqn:E3; [rewrite H in Ha; [discriminate|auto]|].
+  auto.
+Qed.
+
+(* Mon_C12, status: in an accepted log the first status written after a force stop that returned nil is
+   the force-stop failure (or "stopped by the user" if a graceful stop was already under way) *)
+Theorem accepted_status_after_force : forall c l st f, accept c (l ++ [EStatus st f]) = true ->
+  fnil (track c l) = true -> force_status_ok (graceful (track c l)) st f = true.
+Proof.
+  intros c l st f H Hf. destruct (accept_last c l _ H) as [H1 H2].
+  cbn [tstep set_bad bad] in H2. rewrite H1, Hf in H2. cbn [orb andb] in H2.
+  apply negb_false_iff in H2. exact H2.
 Qed.
